@@ -30,6 +30,26 @@ register("C02", "TLA+ abstract DesignSpace + implementation-shaped refinement (c
          "TLC checks the algebra of views (normalisation bijection, gradient scaling, membership/projection, lossless conversions, index partition) on every reachable abstract state and the coherence of every cached/derived variable of the implementation-shaped module (with the refinement mapping); every transition of the bounded Impl graph is executed on a real DesignSpace and ~25 public views are compared exactly with TLC's values after each step; the rules 'as coded before the fixes' are refuted by TLC on every run (non-vacuity).",
          "Trusted: TLC; eighths lattice with power-of-two widths (exact in doubles); projection through public accessors on deep copies. Dict key order and dtypes are not compared. Bounded: <=3 variables, sizes<=3, depth 4-5 (+ depth-12 simulations).",
          "DESIGN.md section 4 C02, 9.4")
+register("C03", "TLA+ model of the driver budget protocol (unconstrained optimizer environment, gemseo's responses, counter, listeners, termination causes, DOE loop, repeated executions) checked by TLC; recorded runs of 48 factory algorithms validated by DriverTrace.tla; behaviours of the Driver graph forced on gemseo with a scripted library",
+         "TLC checks Budget, BudgetTight, CounterExact/Final, AlwaysResult, NoListenerLeak and DoeOrder on every behaviour of the bounded protocol model; every optimizer and DOE of the factories that runs offline is executed over problems x budgets x normalisation x repeated executions (with and without counter reset) with events logged from inside the user callables and public database listeners, and each trace is validated step by step by the trace specification with the invariants evaluated by TLC in every state; termination x budget combinations that real optimizers rarely produce are replayed from the TLC graph through a scripted optimisation library / CustomDOE and the final states compared.",
+         "Trusted: TLC; probe points of finite differences are collapsed by the recorder (excepted by the property); sub-level budgets of composite algorithms are not checked; MNBI, PYDOE_BBDESIGN skipped with reasons in the evidence; NLOPT_NEWUOA (D0305) and MultiStart+normalisation (D0306) are recorded findings.",
+         "DESIGN.md section 4 C03, 9.4")
+register("C04", "TLA+ relation Acceptable(history, cfg, report) + transcription Select of the code's algorithm checked by TLC on every bounded history (initial-state enumeration); every instance replayed on a real Database/OptimizationProblem and the REPORTS judged by TLC (OptHistoryReport / OptParetoReport)",
+         "TLC proves on every history of the bounded family that the (repaired) selection algorithm satisfies the relation and that the violation measure equals the documented formula; every enumerated instance is built as a real Database + OptimizationProblem, and problem.optimum, OptimizationResult.from_optimization_problem, last_point, feasible_points, check_design_point_is_feasible, Pareto fronts are fed back to TLC which evaluates the relation clause by clause on the real reports (ties and under-specified cases are accepted as a relation; a tie-breaking change is a negative control).",
+         "Trusted: TLC; values are quarters (exact). Feasible = every constraint recorded and within tolerance. Vector objectives only in the Pareto clause. Bounded: <=3 (thorough 4) points, <=2 constraints.",
+         "DESIGN.md section 4 C04, 9.4")
+register("C08", "TLA+ definitions of the dependency graph, SCCs, the ValidSequence relation and the documented coupling sets + the code-shaped peel/reverse construction checked by TLC on every enumerated graph; real CouplingStructure/DependencyGraph/chains results fed back to TLC (DepGraphReport) which evaluates every clause",
+         "TLC checks on every enumerated system (all graphs with <=3 nodes incl. self-loops, isolated nodes, duplicated names, all listing orders; n=4 sampled in quick and exhaustive in thorough; shared-variable families) that the code-shaped construction yields a valid schedule and that exact composition holds on the nilpotent integer slice; each instance is built as real disciplines and the sequences, coupling sets and the outputs/execution orders of MDOChain, MDOParallelChain, MDOInitializationChain and MDAChain are judged by TLC against the relation (valid alternative schedules are accepted; negative controls stay quiet).",
+         "Trusted: TLC; integer data-flow disciplines (exact); exact composition is demanded where each name has a single producer; MDA exactness only with unaccelerated fixed-point iterations on the nilpotent slice. n>=6 not covered.",
+         "DESIGN.md section 4 C08, 9.4")
+register("C09", "TLA+ exact integer model of composite linearization (forward total derivatives vs the code-shaped reverse accumulation with its caches, over request histories) checked by TLC; instances and request histories replayed on real chains (dense/sparse/operator Jacobians) and every block compared exactly",
+         "TLC checks AccIsTotal, RequestIndependence, PathSumIsTotal, Shapes and StructuralZeros for every enumerated topology class (diamond, fan-in/out, pass-through, overwritten, isolated, duplicated outputs...) and request history on the implementation-shaped model (the pre-fix rules are refuted by TLC on every run); seeded instances and request histories (up to 3 successive requests, plus exhaustive histories over a request alphabet) are replayed on real MDOChain / MDOParallelChain / MDOAdditiveChain / nested chains / MDAChain and every requested block and shape equals the block TLC computed.",
+         "Trusted: TLC; integer partials (exact in doubles), polynomial leaves at integer points. <=4 leaves; leaves reading and writing the same name and additive chains nested in chains are not covered.",
+         "DESIGN.md section 4 C09, 9.4")
+register("C10", "TLA+ exact dyadic model of the function algebra (26 operators over polynomial/linear/quadratic leaves: value and Jacobian rules with shapes, operand observations) checked by TLC incl. a stencil self-check of the rules; every enumerated (tree, point) replayed on real MDOFunctions and compared exactly",
+         "TLC enumerates expression trees (depth <=1 quick, <=2 thorough + sampled depth 3) x lattice points, checks NoOperandMutation, shapes, quotient consistency, Taylor contact, aggregation identities and validates its own differentiation rules against a five-point stencil (exact for degree <=4); every instance is built from real gemseo objects and evaluate/jac of the tree and of every subtree before and after are compared with == to TLC's numbers.",
+         "Trusted: TLC; dyadic slice (divisors and steps powers of two). KS/IKS smooth maxima are NOT claimed (exponentials are outside TLA+). 'For all real x' is replaced by lattice points (4 per axis).",
+         "DESIGN.md section 4 C10, 9.4")
 register("C11", "TLA+ abstract database store/export/load model + file-layout refinement of _hdf_database.py (refinement checked by TLC); transition tour replayed on real Databases with real HDF5 files (reload + raw h5py layout vs TLC state); recorded histories validated by HDFStoreTrace.tla; design-space and cache file models",
          "TLC checks RoundTrip, AppendEqualsFull, IndexConsistency and the refinement HDFStoreImpl => HDFStore on every store/store-more/export(append|full)/load history of the bounded model; every transition of the implementation graph is executed on a real Database (root and nested node, also owned by an OptimizationProblem) and after each export the reloaded database, the raw HDF5 layout and the problem description are compared with TLC's state; random store/export histories recorded from the real code are validated by a trace specification; DesignSpaceFile.tla / HDFCacheFile.tla cover design-space CSV/HDF5 files and cache reopening.",
          "Trusted: TLC, h5py. Values are distinguishable exactly representable floats. Overwriting an existing output with a different value between exports and deletions are outside the property. Bounded: <=3 keys, <=5 names per model configuration.",
